@@ -21,11 +21,25 @@ def main():
     clips = [data.Clip(recording=rec, start_time=float(10 * i), end_time=float(10 * i + 10)) for i in range(4)]
 
     def se(slot):
+        if isinstance(slot, tuple):     # ("stamp", t) / ("point", t, f): zero-extent geometries, compared after the default buffering
+            geom = data.TimeStamp(coordinates=slot[1]) if slot[0] == "stamp" else data.Point(coordinates=[slot[1], slot[2]])
+            return data.SoundEvent(recording=rec, geometry=geom)
         return data.SoundEvent(recording=rec, geometry=None if slot is None else data.BoundingBox(coordinates=[slot, 100.0, slot + 0.8, 900.0]))
 
-    ann_choices = [[], [(0, "a")], [(0, "a"), (2, "b")], [(None, "a")], [(0, None)], [(1, "zzz"), (3, "c"), (None, "b")]]
+    def time_extent(g):
+        """independent of the library: the time extent after the default 0.01 s buffer of zero-extent geometries"""
+        if g.type == "TimeStamp":
+            return max(0.0, g.coordinates - 0.01), g.coordinates + 0.01
+        if g.type == "Point":
+            return max(0.0, g.coordinates[0] - 0.01), g.coordinates[0] + 0.01
+        return g.coordinates[0], g.coordinates[2]
+
+    ann_choices = [[], [(0, "a")], [(0, "a"), (2, "b")], [(None, "a")], [(0, None)], [(1, "zzz"), (3, "c"), (None, "b")],
+                   [(("stamp", 2.0), "a"), (("point", 5.0, 3000.0), "b")]]
     pred_choices = [[], [(0, {"a": 0.75})], [(0.2, {"a": 0.5, "b": 0.25})], [(4, {"c": 0.5})], [(None, {"a": 0.5})],
-                    [(0.1, {"b": 0.75}), (2.1, {"b": 0.5, "zzz": 0.25}), (None, {"c": 0.25})], [(0, {}), (0.4, {"a": 0.25})]]
+                    [(0.1, {"b": 0.75}), (2.1, {"b": 0.5, "zzz": 0.25}), (None, {"c": 0.25})], [(0, {}), (0.4, {"a": 0.25})],
+                    # zero-extent predictions: far away in time (must stay unpaired), and close in time
+                    [(("stamp", 40.0), {"a": 0.75}), (("point", 5.005, 3050.0), {"b": 0.5})], [(("stamp", 2.004), {"a": 0.5}), (("point", 65.0, 3000.0), {"b": 0.75})]]
     tagof = {"a": vocab[0], "b": vocab[1], "c": vocab[2], "zzz": other}
     combos = list(itertools.product(ann_choices, pred_choices))
     n_clip_sets = len(combos) + (40 if s.tier == "quick" else 600)
@@ -63,7 +77,7 @@ def main():
                 if m.source is not None and m.target is not None:
                     gp, ga = m.source.sound_event.geometry, m.target.sound_event.geometry
                     aff = compute_affinity(gp, ga) if gp is not None and ga is not None else 0.0
-                    (p0, _, p1, _), (a0, _, a1, _) = gp.coordinates, ga.coordinates
+                    (p0, p1), (a0, a1) = time_extent(gp), time_extent(ga)
                     if not min(p1, a1) > max(p0, a0):
                         s.fail("detection_pair_without_overlap", f"{key}: a prediction was paired with an annotation it does not overlap")
                     if abs(m.affinity - aff) > 1e-12:
